@@ -25,7 +25,8 @@ from .core import vloop
 RULE = ("inputs: IEEE special values (NaN, +-inf, +-0.0, subnormals, neighbours of 0/100/-30/-144), a dense grid "
         "over and around [0,100] % and [-30,0] dBFS, seeded random doubles; histories: seeded random sequences of "
         "set/up/down/read/device-report over the real facade+RaopAudio and facade+MrpAudio (specials included), with RAOP "
-        "stream starts (real RaopStream.stream_file; receiver advertising any / no initialVolume; every fixed level incl. "
+        "stream starts (real RaopStream.stream_file + real StreamClient.send_audio; receiver advertising any / no initialVolume, "
+        "accepting or rejecting SET_PARAMETER volume before RECORD; level never known / user-set / reported; every fixed level incl. "
         "0.0 and 100.0 set-then-stream-then-read) and MRP volume updates for other output-device UIDs interleaved, plus a "
         "BFS over every state reachable by volume_up/volume_down; non-trivial = input at or outside a boundary, a "
         "special value, or a history containing a rejected set, a clamped step or an out-of-range report; distinct = "
@@ -546,6 +547,11 @@ def patch_raop():
         async def close(self):
             pass
 
+        duration = 0
+
+        async def readframes(self, nframes):
+            return b""
+
     async def open_source(*args, **kwargs):
         return Source()
 
@@ -564,6 +570,7 @@ def unpatch_raop():
 class RaopRig(Rig):
     async def setup(self, with_client):
         patch_raop()
+        from pyatv import exceptions
         from pyatv.const import Protocol
         from pyatv.core import CoreStateDispatcher, ProtocolStateDispatcher, UpdatedState
         from pyatv.protocols.raop import RaopAudio, RaopPlaybackManager, RaopStream
@@ -579,27 +586,77 @@ class RaopRig(Rig):
         self.stream_checks = []
         self.last_set = None         # last in-range level set by the user, while nothing else changed it
 
+        self.accepts = True          # receiver accepts SET_PARAMETER volume before RECORD
+        self.recorded = False        # RECORD has been sent in the current session
+        self.in_send_audio = False
+
+        class Connection:
+            remote_ip = "127.0.0.1"
+
         class Rtsp:                  # the RAOP receiver
+            connection = Connection()
+            session_id = 1
+
             async def set_parameter(self, name, value):
                 assert name == "volume"
-                rig.sent.append(float(value))
+                rig.sent.append(float(value))          # offered to the receiver, accepted or not
+                if not rig.accepts and not rig.recorded:
+                    rig.ev("try:" + tok(float(value)))
+                    raise exceptions.HttpError("RTSP/1.0 400 Bad Request", 400)
+                if rig.in_send_audio:
+                    rig.ev("late:" + tok(float(value)))
 
             async def info(self):
                 return dict(rig.receiver_info)
+
+            async def record(self, *args, **kwargs):
+                rig.recorded = True
+
+            async def flush(self, *args, **kwargs):
+                pass
+
+            async def teardown(self, *args, **kwargs):
+                pass
 
         class FakeStreamProtocol:
             def teardown(self):
                 pass
 
+            async def start_feedback(self):
+                pass
+
+        class FakeEndpoint:          # control client / timing server / datagram transport
+            def start(self, *args):
+                pass
+
+            def close(self):
+                pass
+
+            def is_closing(self):
+                return True          # no audio packets: _stream_data ends at once
+
+        class FakeLoop:
+            async def create_datagram_endpoint(self, *args, **kwargs):
+                return FakeEndpoint(), None
+
         class VerifStreamClient(StreamClient):
-            """Real StreamClient without the network parts of initialize / send_audio."""
+            """Real StreamClient (real send_audio / set_volume) without sockets: initialize only
+            fetches /info and installs fake control / timing endpoints."""
 
             async def initialize(self, properties):
                 self._info.update(await self.rtsp.info())
+                self.control_client = FakeEndpoint()
+                self.timing_server = FakeEndpoint()
+                self.loop = FakeLoop()
 
             async def send_audio(self, source, metadata=EMPTY_METADATA, /, volume=None):
                 if volume is not None:
                     rig.deferred.append(volume)
+                rig.in_send_audio = True
+                try:
+                    await super().send_audio(source, metadata, volume=volume)
+                finally:
+                    rig.in_send_audio = False
 
         class Service:
             properties = {}
@@ -618,6 +675,7 @@ class RaopRig(Rig):
 
         async def pm_setup(service):
             if self.pm._stream_client is None:
+                rig.recorded = False
                 self.pm._rtsp = Rtsp()
                 self.pm._stream_client = VerifStreamClient(self.pm._rtsp, self.pm.context, FakeStreamProtocol(), fake_core.settings)
             return self.pm._stream_client, self.pm.context
@@ -625,6 +683,7 @@ class RaopRig(Rig):
         self.pm.setup = pm_setup
         if with_client:              # a stream is already running
             await pm_setup(None)
+            rig.recorded = True
         disp = ProtocolStateDispatcher(Protocol.RAOP, core)
         self.other = ProtocolStateDispatcher(Protocol.Companion, core)
         orig_dispatch = disp.dispatch
@@ -668,12 +727,16 @@ class RaopRig(Rig):
         except Exception as exc:
             return "raise:" + err_class(exc)
 
-    async def stream_start(self, init):
-        """One complete RaopStream.stream_file; the receiver advertises initialVolume=init
-        (None: does not advertise).  Records what the stream-start oracle needs."""
+    async def stream_start(self, init, accepts=True):
+        """One complete RaopStream.stream_file (real StreamClient.send_audio included); the
+        receiver advertises initialVolume=init (None: does not advertise) and accepts or
+        rejects SET_PARAMETER volume before RECORD.  Records what the oracle needs."""
+        if self.pm.stream_client is not None:     # a stream was running (client=True rigs): it ends first
+            await self.pm.teardown()
         self.receiver_info = {} if init is None else {"initialVolume": init}
+        self.accepts = accepts
         before, nsent, changed = self._read(), len(self.sent), bool(self.recv)
-        self.begin("t:" + ("none" if init is None else tok(init)))
+        self.begin("t:" + ("none" if init is None else tok(init)) + (":a" if accepts else ":r"))
         raised = None
         try:
             await self.stream.stream_file("verif.wav")
@@ -682,7 +745,8 @@ class RaopRig(Rig):
             self.ev("raise:" + raised)
         finally:
             self.cur = None
-        self.stream_checks.append({"init": init, "before": before, "after": self._read(), "changed": changed,
+        self.accepts = True
+        self.stream_checks.append({"init": init, "accepts": accepts, "before": before, "after": self._read(), "changed": changed,
                                    "last_set": self.last_set, "sent": self.sent[nsent:], "raised": raised})
 
 
@@ -777,7 +841,7 @@ def random_history(rng, n, proto="raop"):
     for _ in range(n):
         k = rng.random()
         if proto == "raop" and rng.chance(0.12):
-            ops.append(("stream", rng.choice(INITIAL_POOL)))
+            ops.append((rng.choice(["stream", "stream", "streamrej"]), rng.choice(INITIAL_POOL)))
             if rng.chance(0.7):
                 ops.append(("read", None))
             continue
@@ -804,8 +868,8 @@ async def run_raop_history(ops, with_client, burst=()):
     for i, (op, x) in enumerate(ops):
         if op == "report":
             rig.report(x)
-        elif op == "stream":
-            await rig.stream_start(x)
+        elif op in ("stream", "streamrej"):
+            await rig.stream_start(x, accepts=(op == "stream"))
         else:
             await rig.user_op(op, x)
             if op == "set" and in_pct(x):
@@ -872,15 +936,14 @@ def history_problems(proto, ops, rig, utils):
             want, why = chk["before"], f"the level was {chk['before']!r} before the start"
         if want is None:
             continue
-        where = f"stream start with receiver initialVolume={chk['init']!r}: {why}"
+        where = (f"stream start, receiver initialVolume={chk['init']!r}, "
+                 f"{'accepts' if chk['accepts'] else 'rejects'} volume before RECORD: {why}")
         if chk["raised"]:
             problems.append((f"{proto}:stream-start-raises", f"{where}, stream_file raised {chk['raised']}"))
         elif not isinstance(after, float) or abs(after - want) > TOL_READBACK:
             problems.append((f"{proto}:stream-start-loses-level", f"{where}, audio.volume reads {after!r} afterwards"))
-        elif not any(isinstance(d, float) and abs(pct_of(d) - want) <= TOL_READBACK for d in chk["sent"]):
+        elif chk["accepts"] and not any(isinstance(d, float) and abs(pct_of(d) - want) <= TOL_READBACK for d in chk["sent"]):
             problems.append((f"{proto}:stream-start-level-not-sent", f"{where}, the receiver was sent {chk['sent']!r}"))
-    if getattr(rig, "deferred", None):
-        problems.append((f"{proto}:stream-start-level-not-sent", f"set_volume failed at stream start, level deferred: {rig.deferred!r}"))
     return problems
 
 
@@ -938,7 +1001,15 @@ def check_histories(ctx, utils, only=None):
         for lvl in (0.0, 100.0, 50.0, 33.0, 99.9, 5e-324, 1 / 3):       # set, start streaming, read back
             for init in (-15.0, None, -144.0, 0.0):
                 fixed.append(("raop", [("set", lvl), ("stream", init), ("read", None)], {"client": False}))
+        # receiver rejects SET_PARAMETER volume before RECORD (deferred hand-over), level never
+        # known / set by the user / reported by another protocol, initialVolume advertised or not
+        for init in (None, -15.0):
+            fixed.append(("raop", [("streamrej", init), ("read", None), ("up", None), ("read", None), ("down", None)], {"client": False}))
+            fixed.append(("raop", [("report", 40.0), ("streamrej", init), ("read", None), ("down", None)], {"client": False}))
+            for lvl in (0.0, 100.0, 9.0, 33.0, 5e-324):
+                fixed.append(("raop", [("set", lvl), ("streamrej", init), ("read", None), ("up", None), ("read", None)], {"client": False}))
         fixed += [
+            ("raop", [("streamrej", None), ("streamrej", None), ("read", None), ("stream", None), ("read", None)], {"client": False}),
             ("raop", [("stream", -15.0), ("read", None), ("up", None), ("stream", -30.0), ("read", None)], {"client": False}),
             ("raop", [("stream", None), ("read", None)], {"client": False}),
             ("raop", [("stream", 5.0), ("read", None), ("stream", NAN), ("read", None), ("stream", -INF), ("read", None)], {"client": False}),
